@@ -117,6 +117,47 @@ def lifecycle_scenarios():
     return out
 
 
+def deadline_scenarios():
+    """The only deadline of the keyspace, armed by each command that can arm one, comes due (the clock moves to exactly the
+    deadline, or past it) and the first command afterwards is one that does not look the key up for reading: the key must be
+    gone for it too (DEL answers 0, SET .. KEEPTTL starts a key without TTL, DBSIZE / KEYS do not count it, ...)."""
+    out = []
+    k = "dl"
+    flags = dict(gt=False, lt=False, nx=False, xx=False)
+    setk = dict(ex=-1, px=-1, nx=False, xx=False, get=False, keepttl=False)
+    armers = {
+        "set_px": [_c("SET", k=k, v=_b("v1"), **dict(setk, px=100))],
+        "set_ex": [_c("SET", k=k, v=_b("v1"), **dict(setk, ex=1))],
+        "psetex": [_c("SETEX", k=k, v=_b("v1"), ms=100)],
+        "expire": [_c("SET", k=k, v=_b("v1"), **setk), _c("EXPIRE", k=k, ms=100, **flags)],
+        "getex_px": [_c("SET", k=k, v=_b("v1"), **setk), _c("GETEX", k=k, mode="rel", ms=100)],
+        "getex_ex": [_c("SET", k=k, v=_b("v1"), **setk), _c("GETEX", k=k, mode="rel", ms=1000)],
+        "expire_list": [_c("PUSH", k=k, left=False, vs=[_b("a")]), _c("EXPIRE", k=k, ms=100, **flags)],
+        "rearmed": [_c("SET", k=k, v=_b("v1"), **dict(setk, px=5000)), _c("GETEX", k=k, mode="rel", ms=100)],
+        "later_other": [_c("SET", k="far", v=_b("x"), **dict(setk, px=900000)), _c("SET", k=k, v=_b("v1"), **setk), _c("GETEX", k=k, mode="rel", ms=100)],
+    }
+    one = {"d": [1], "neg": False}
+    observers = {
+        "del": [_c("DEL", ks=[k])],
+        "set_keepttl": [_c("SET", k=k, v=_b("n"), **dict(setk, keepttl=True)), _c("TTL", k=k), {"tick": 50}, _c("EXISTS", ks=[k])],
+        "dbsize": [_c("DBSIZE")],
+        "exists": [_c("EXISTS", ks=[k])],
+        "type": [_c("TYPE", k=k)],
+        "rename": [_c("RENAME", k=k, k2="other", nx=False)],
+        "append": [_c("APPEND", k=k, v=_b("n")), _c("TTL", k=k)],
+        "incr": [_c("INCRBY", k=k, d=one, dmin=False), _c("TTL", k=k)],
+        "setnx": [_c("SETNX", k=k, v=_b("n")), _c("TTL", k=k)],
+        "rpush": [_c("PUSH", k=k, left=False, vs=[_b("n")]), _c("TYPE", k=k), _c("TTL", k=k)],
+        "persist": [_c("EXPIRE", k=k, ms=777000, **flags), _c("TTL", k=k)],
+    }
+    for aname, arm in armers.items():
+        due = 1000 if aname in ("set_ex", "getex_ex") else 100
+        for oname, obs in observers.items():
+            for tick in (due, due + 37):
+                out.append(arm + [{"tick": tick}] + obs + [_c("DBSIZE"), _c("EXISTS", ks=[k])])
+    return out
+
+
 def zset_tie_scenarios(seed, n=40):
     """Sorted sets in which several members share a score, queried with every inclusive / exclusive bound at,
     between and beyond the shared scores (ZCOUNT, ZRANGEBYSCORE with and without LIMIT, ZRANGE, ZRANK)."""
